@@ -196,7 +196,7 @@ def run(tier):
     common.write_ndjson(inp, reqs)
     rc, txt, _ = common.run([h, "rowscan", inp, outp], timeout=900)
     if rc != 0:
-        raise Infra("harness rowscan failed (a crash of the harness is a panic Scan did not contain): " + txt[-1500:])
+        raise common.harness_failure(txt, "harness rowscan")
     res = {r["id"]: r for r in common.read_ndjson(outp)}
     events = []
     for rq, m in zip(reqs, meta):
